@@ -2051,7 +2051,7 @@ def run(ctx: Ctx):
             run_history(ctx, drv, hist + json.loads(json.dumps(bat)), tmp)
             ctx.traces += 1
         # (b) random histories
-        for _ in range(ctx.budget(2000, 11000)):
+        for _ in range(ctx.budget(2000, 9000)):
             n = rng.choice([1, 2, 3, 5, 8, 12, 20, 30])
             hist = gen_history(rng, n)
             muts = [op for op in hist if op["op"] in MUTATING]
